@@ -40,6 +40,15 @@ def make_start(ctor, value):
     raise loader.HarnessError(ctor)
 
 
+class _Broken:
+    """A SequenceStart whose value is not ready: reading it raises.  A request that raises returns no sequence number,
+    so it must not consume one."""
+
+    @property
+    def value(self):
+        raise RuntimeError("sequence start not ready")
+
+
 def start_menu(values):
     out = [("zero", 0)]
     for c in CTORS[1:]:
@@ -59,9 +68,37 @@ class SeqProduct(explorer.Product):
         return {"a": self.cls(s1), "b": self.cls(s2), "model": RefSequencer(v)}
 
     def menu(self, st):
-        return [("next",)] + [("set",) + s for s in start_menu(self.values)] + [("set_shared", "init", self.values[1]), ("set_shared", "ping", self.values[3])]
+        return [("next",)] + [("set",) + s for s in start_menu(self.values)] + [("set_shared", "init", self.values[1]), ("set_shared", "ping", self.values[3]), ("fork",), ("set_broken",)]
 
     def apply(self, st, op):
+        if op[0] == "fork":
+            # peer b is replaced by a shallow copy of peer a (a fork used to peek / to branch a history): the two must
+            # be independent from then on
+            import copy
+
+            try:
+                st["b"] = copy.copy(st["a"])
+            except Exception as e:  # noqa: BLE001
+                return f"copy.copy(sequencer) raised {type(e).__name__}"
+            st["forked"] = True  # part of the state key: sharing between the two objects is invisible to a snapshot
+            return None
+        if op[0] == "set_broken":
+            for side in ("a", "b"):
+                st[side].set_sequence_start(_Broken())
+            st["broken"] = True
+            return None
+        if op[0] == "next" and st.get("broken"):
+            outcomes = []
+            for side in ("a", "b"):
+                try:
+                    outcomes.append(("ret", st[side].next_sequence()))
+                except RuntimeError:
+                    outcomes.append(("raised",))
+                except Exception as e:  # noqa: BLE001
+                    return f"next_sequence with an unready start raised {type(e).__name__}"
+            if outcomes != [("raised",), ("raised",)]:
+                return f"next_sequence returned {outcomes} although the start's value is not ready"
+            return None  # nothing was returned: n does not advance
         if op[0] == "next":
             try:
                 ra, rb = st["a"].next_sequence(), st["b"].next_sequence()
@@ -81,6 +118,7 @@ class SeqProduct(explorer.Product):
             if s.value != v:
                 return f"the shared start object changed its value to {s.value}"
             st["model"].set_start(v)
+            st["broken"] = False
             return None
         _, ctor, value = op
         for side in ("a", "b"):
@@ -89,10 +127,11 @@ class SeqProduct(explorer.Product):
             if r is not None:
                 return f"set_sequence_start returned {r!r}"
         st["model"].set_start(v)
+        st["broken"] = False
         return None
 
     def key(self, st):
-        return (explorer.snapshot(st["a"]), explorer.snapshot(st["b"]), st["model"].start, st["model"].n % 10)
+        return (explorer.snapshot(st["a"]), explorer.snapshot(st["b"]), st["model"].start, st["model"].n % 10, bool(st.get("broken")), bool(st.get("forked")))
 
 
 def _deep_histories(shard):
@@ -218,7 +257,7 @@ def run(tier, seed):
         "exhaustive": bool(fix),
         "rule": (
             "BFS to fixpoint over (two real PacketSequencer peers, reference) from every initial start; menu = "
-            "next_sequence + set_sequence_start(start built by every constructor path x value set); distinct by "
+            "next_sequence + set_sequence_start(start built by every constructor path x value set) + a start object shared by both peers + fork (peer b := copy.copy(peer a)) + a start whose value raises (a failed request consumes no number); distinct by "
             "generic snapshot of both real objects + model (start, n mod 10); plus every history of "
             "undeduplicated_depth over {next, set a, set b} replayed without deduplication, plus 46-request runs "
             "with one update at every position, plus every sequence of 5/6 macro-ops {next, next x9, next x10, set a, set b}"
